@@ -82,32 +82,62 @@ def _t_solve(c):
                 nosame=True)
 
 
-NORM_ORDS = [None, "fro", "nuc", 2, 3, 1.5, onp.inf, 1, -1, 0, -onp.inf, 4]
+VEC_ORDS = [None, 2, 3, 1.5, 4, onp.inf, 1, 0, -1, -onp.inf, 2.5]
+MAT_ORDS = [None, "fro", "nuc", 2, 1, -1, onp.inf, -2]
 
 
-@template("l:norm", "linalg", weight=3)
-def _t_norm(c):
+@template("l:norm_vec", "linalg", weight=2)
+def _t_norm_vec(c):
+    """Vector norms: axis absent/None on 1-D input, or an int axis on any rank."""
     s = c.shape(1, 3)
     nd = len(s)
-    o = c.choice(NORM_ORDS)
-    k = c.int(0, 3)  # axis: absent, None, int, pair
-    if k == 3 and nd < 2:
-        k = 2
+    o = c.choice(VEC_ORDS)
     kw = {}
+    k = c.int(0, 2)
+    if nd > 1 and k < 2:
+        k = 2 if c.bool() else k  # absent/None on rank>1 means Frobenius / matrix norm: keep some of those too
     if k == 1:
         kw["axis"] = None
     elif k == 2:
         kw["axis"] = c.axis(nd)
-    elif k == 3:
+    if o is not None or c.bool():
+        kw["ord"] = o
+    pos = c.chance(1, 4) and "ord" in kw and "axis" in kw
+    if c.chance(1, 6):
+        kw["keepdims"] = True
+    if pos and "keepdims" not in kw:
+        fn = lambda ns, x: ns.linalg.norm(x, kw["ord"], kw["axis"])
+    else:
+        fn = lambda ns, x: ns.linalg.norm(x, **kw)
+    return Call("l:norm_vec", fn, [s], dom=(0.3, 2.0) if o in (0, -1, -onp.inf) else (-2, 2), avoid=(0.0,),
+                desc=["norm", list(s), {k_: repr(v) for k_, v in kw.items()}, pos],
+                feats={"fn": "norm", "ord": repr(o), "axis_kind": k, "ndim": nd, "keepdims": "keepdims" in kw,
+                       "axis_neg": isinstance(kw.get("axis"), int) and kw["axis"] < 0})
+
+
+@template("l:norm_mat", "linalg", weight=3)
+def _t_norm_mat(c):
+    """Matrix norms: 2-D input with axis absent/None, or an axis pair (any signs) on rank 2-4."""
+    s = c.shape(2, 4)
+    nd = len(s)
+    o = c.choice(MAT_ORDS)
+    kw = {}
+    k = c.int(0, 2) if nd == 2 else 2
+    if k == 1:
+        kw["axis"] = None
+    elif k == 2:
         a, b_ = c.sample(range(nd), 2)
         kw["axis"] = (c.signed_axis(a, nd), c.signed_axis(b_, nd))
     if o is not None or c.bool():
         kw["ord"] = o
-    if c.chance(1, 4):
+    if c.chance(1, 6):
         kw["keepdims"] = True
-    return Call("l:norm", lambda ns, x: ns.linalg.norm(x, **kw), [s], dom=(0.3, 2.0) if o in (0, -1, -onp.inf) else (-2, 2), avoid=(0.0,),
-                desc=["norm", list(s), {k_: (repr(v)) for k_, v in kw.items()}],
-                feats={"fn": "norm", "ord": repr(o), "axis_kind": k, "ndim": nd, "keepdims": "keepdims" in kw})
+    ax = kw.get("axis")
+    return Call("l:norm_mat", lambda ns, x: ns.linalg.norm(x, **kw), [s], avoid=(0.0,),
+                desc=["norm", list(s), {k_: repr(v) for k_, v in kw.items()}],
+                feats={"fn": "norm", "ord": repr(o), "axis_kind": k, "ndim": nd, "keepdims": "keepdims" in kw,
+                       "axis_mixed_sign": isinstance(ax, tuple) and (ax[0] < 0) != (ax[1] < 0),
+                       "axis_neg": isinstance(ax, tuple) and any(a < 0 for a in ax)})
 
 
 def _sym_spectrum_prep(n, pd=False):
